@@ -119,6 +119,6 @@ DurIsZero(d) == d.y = 0 /\ d.mo = 0 /\ d.len = Zero3
 DurEq(a, b) == a.y = b.y /\ a.mo = b.mo /\ a.len = b.len
 \* ordering key: a year counts as the mode's common-year length, a month as 30 days
 DurRough(m, d) == Norm3(<<d.y * DaysInYear(m, 2001) + d.mo * 30 + d.len[1], d.len[2], d.len[3]>>)
-DurNeg(d) == [d EXCEPT !.y = -d.y, !.mo = -d.mo, !.len = Neg3(d.len),
-                       !.d = -d.d, !.h = -d.h, !.mi = -d.mi, !.s = -d.s]
+\* negation (only the fields the specification's functions read)
+DurNeg(d) == [d EXCEPT !.y = -d.y, !.mo = -d.mo, !.len = Neg3(d.len)]
 =============================================================================
